@@ -1,4 +1,4 @@
-//! Sanitizer phases (thorough tier of C05 and C11): the same cases, the same monitors, run by an
+//! Sanitizer phases (thorough tier of C05, C11 and C14): the same cases, the same monitors, run by an
 //! instrumented build of this harness.
 //!
 //!  * ASan: `cargo +nightly build --target x86_64-unknown-linux-gnu` with -Zsanitizer=address
@@ -9,6 +9,8 @@
 //!  * Miri (C11 only): `cargo +nightly miri run -- child C11 ...` in a few single-threaded
 //!    interpreter processes over disjoint case ranges; an "Undefined Behavior" diagnostic is a
 //!    violation, anything else that stops the interpreter (unsupported operation) is inconclusive.
+//!  * TSan (C14 only): -Zsanitizer=thread with -Zbuild-std into target/vh-tsan; every case runs its
+//!    calls from 8 barrier-released threads; a report aborts the worker (`tsan:<kind>:<function>`).
 //!
 //! The crate under test has no `unsafe` of its own; what these phases can see is undefined
 //! behaviour or memory errors in the dependencies reached through its API (ciborium-ll, pest,
@@ -167,6 +169,83 @@ pub fn miri_phase(def: &'static PropDef, sum: &mut Summary, tier: Tier, seed: u6
   sum.counters.insert("miri:undefined_behaviour_reports".into(), ub);
   if evals == 0 {
     sum.inconclusive.push("sanitizer phase: the Miri run evaluated nothing".into());
+  }
+}
+
+/// ThreadSanitizer phase (thorough tier of C14): the harness is rebuilt with -Zsanitizer=thread and
+/// an instrumented standard library (-Zbuild-std; `--cfg has_std` because indexmap 1.9's build
+/// script mis-detects std under build-std), and the supervisor drives that binary over the first
+/// `cases` cases. Every case of C14 validates the same calls from 8 threads released by a barrier,
+/// so every access the crate and its dependencies make during validation is observed with
+/// concurrent peers. A report (data race, lock-order inversion, ...) aborts the worker and is
+/// attributed to the journaled case; the signature is the report kind plus the first frame that
+/// is not in the sanitizer runtime or std. The determinism monitors run unchanged in this build.
+pub fn tsan_phase(def: &'static PropDef, sum: &mut Summary, tier: Tier, seed: u64, cases: u64) {
+  if tier != Tier::Thorough || std::env::var("VH_NO_SAN").is_ok() {
+    return;
+  }
+  let tdir = format!("{}/target/vh-tsan", VERIF);
+  let b = Command::new("cargo")
+    .current_dir(format!("{}/vh", VERIF))
+    .env("CARGO_NET_OFFLINE", "true")
+    .env("RUSTFLAGS", "-Zsanitizer=thread --cfg has_std")
+    .args(["+nightly", "build", "--offline", "-Zbuild-std", "--target", "x86_64-unknown-linux-gnu", "--target-dir", &tdir])
+    .stdin(Stdio::null())
+    .output();
+  let exe = format!("{}/x86_64-unknown-linux-gnu/debug/vh", tdir);
+  match b {
+    Ok(o) if o.status.success() && std::path::Path::new(&exe).exists() => {}
+    Ok(o) => {
+      sum.inconclusive.push(format!("sanitizer phase: the TSan build of the harness failed: {}", tail(&o.stderr, 400)));
+      return;
+    }
+    Err(e) => {
+      sum.inconclusive.push(format!("sanitizer phase: cargo +nightly could not be started: {}", e));
+      return;
+    }
+  }
+  std::env::set_var("TSAN_OPTIONS", "halt_on_error=1:abort_on_error=1:second_deadlock_stack=1:history_size=4");
+  let o = RunOpts { seed, tier: Tier::Quick, only_case: None };
+  let (s2, crashes) = supervise_with(def, &o, &exe, Some(cases));
+  std::env::remove_var("TSAN_OPTIONS");
+  sum.counters.insert("tsan:evaluations".into(), s2.evals);
+  for (k, v) in &s2.counters {
+    if k == "calls_compared_concurrent" || k == "overlapping_call_pairs" || k == "cases_without_overlap" || k == "rejecting_calls" {
+      sum.counters.insert(format!("tsan:{}", k), *v);
+    }
+  }
+  let mut reports = 0u64;
+  let mut other = 0u64;
+  for c in &crashes {
+    let kind = c["kind"].as_str().unwrap_or("");
+    if let Some(k) = kind.strip_prefix("tsan-") {
+      reports += 1;
+      let frames: Vec<String> = c["tsan_frames"].as_array().map(|a| a.iter().filter_map(|x| x.as_str().map(|s| s.to_string())).collect()).unwrap_or_default();
+      // "    #1 cddl::validator::json::JSONValidator::visit_type /repo/src/validator/json.rs:1054 (vh+0x...)"
+      let first = frames
+        .iter()
+        .map(|f| f.trim_start().splitn(2, ' ').nth(1).unwrap_or("").to_string())
+        .find(|f| !f.starts_with("__tsan") && !f.starts_with("std::") && !f.starts_with("core::") && !f.starts_with("alloc::") && !f.starts_with("__interceptor") && !f.is_empty())
+        .unwrap_or_default();
+      let func = first.split_whitespace().next().unwrap_or("?").to_string();
+      sum.violations.push(json!({"signature": format!("tsan:{}:{}", k, func), "case": c["case"], "detail": {"phase": "tsan", "crash": c, "replay_hint": "build vh with -Zsanitizer=thread (see vh/src/san.rs) and run: vh child C14 --tier quick --from <case> --to <case+1> --step 1"}}));
+    } else {
+      other += 1;
+      *sum.counters.entry(format!("tsan:crashed_not_judged:{}", kind)).or_insert(0) += 1;
+    }
+  }
+  sum.counters.insert("tsan:reports".into(), reports);
+  sum.counters.insert("tsan:cases_crashed_not_judged_here".into(), other);
+  for v in s2.violations.clone() {
+    let mut v = v;
+    v["detail"]["phase"] = json!("tsan");
+    sum.violations.push(v);
+  }
+  for (k, n) in &s2.known_hits {
+    *sum.known_hits.entry(k.clone()).or_insert(0) += *n;
+  }
+  if s2.evals == 0 || s2.c("overlapping_call_pairs") == 0 {
+    sum.inconclusive.push(format!("sanitizer phase: the TSan run observed too little (evaluations {}, overlapping call pairs {})", s2.evals, s2.c("overlapping_call_pairs")));
   }
 }
 
